@@ -150,3 +150,30 @@ def shrink(ops, still_fails, budget=60):
             if chunk == 1: break
             n *= 2
     return cur
+
+def run_plain(exe, ops0, lean=True, timeout=300, env=None):
+    """run ops (with @DUMPk@ placeholders) on C and on the model; returns (cblocks aligned with ops0, dump paths by op index,
+    tie, sanitizer report, crash, model fault)"""
+    sid = hashlib.sha1("\n".join(ops0).encode()).hexdigest()[:12]
+    paths = {}
+    real = []
+    for i, o in enumerate(ops0):
+        m = re.search(r"@DUMP(\d+)@", o)
+        if m:
+            p = os.path.join(vlib.scratch(), f"p_{sid}_{m.group(1)}.img"); paths[i] = p
+            real.append(o.replace(m.group(0), p))
+        else: real.append(o)
+    rc, cb, err = vlib.run_c(exe, real, timeout=timeout, env=env)
+    san = vlib.sanitizer_report(err)
+    crash = None if rc == 0 or san else f"harness exit {rc}: {err[-300:]}"
+    tie = None; fault = None
+    if lean:
+        lops = [o for i, o in enumerate(ops0) if i not in paths]
+        cb0 = [b for i, b in enumerate(cb) if i not in paths]
+        rl, lb, lerr = vlib.run_lean(lops, timeout=timeout * 2)
+        d = vlib.first_diff(lops, cb0, lb)
+        if rl != 0: tie = (0, ["lean driver failed"], [lerr[-200:]], lops)
+        elif d: tie = (d[0], d[1], d[2], lops)
+        for b in lb:
+            if b and b[0].startswith("= FAULT"): fault = b[0]; break
+    return cb, paths, tie, san, crash, fault
